@@ -2661,6 +2661,9 @@ class Circuit(AbstractCircuit):
             return self
         new_circuit = Circuit(tags=self.tags + new_tags)
         new_circuit._moments[:] = self._moments
+        # The placement cache of the freshly built (empty) circuit knows nothing about the
+        # moments copied in above; drop it, as `copy` and `_from_moments` do.
+        new_circuit._placement_cache = None
         return new_circuit
 
     def with_noise(self, noise: cirq.NOISE_MODEL_LIKE) -> cirq.Circuit:
